@@ -13,8 +13,8 @@ theorem negC_nofault (ds : List Nat) (e : Int) (o : WOpts) (b : WBuf) : negC ds 
   refine bind_nofault _ _ (set_nofault _ _ _) fun _ => bind_nofault _ _ (set_nofault _ _ _) fun _ =>
     bind_nofault _ _ (fill_nofault _ _ _ _) fun _ => bind_nofault _ _ (blit_nofault _ _ _) fun _ => padZeros_nofault _ _ _ _
 
-theorem posC_nofault (ds : List Nat) (e : Int) (o : WOpts) (b : WBuf) : posC ds e o b ≠ .fault := by
-  unfold posC
+theorem posCLayout_nofault (ds : List Nat) (e : Int) (o : WOpts) (b : WBuf) : posCLayout ds e o b ≠ .fault := by
+  unfold posCLayout
   dsimp only
   split
   · refine bind_nofault _ _ (blit_nofault _ _ _) fun _ => bind_nofault _ _ (fill_nofault _ _ _ _) fun _ => ?_
@@ -24,11 +24,16 @@ theorem posC_nofault (ds : List Nat) (e : Int) (o : WOpts) (b : WBuf) : posC ds 
   · exact bind_nofault _ _ (blit_nofault _ _ _) fun _ => bind_nofault _ _ (set_nofault _ _ _) fun _ =>
       bind_nofault _ _ (blit_nofault _ _ _) fun _ => padZeros_nofault _ _ _ _
 
-theorem sciC_nofault (fmt : Format) (feats : Features) (ds : List Nat) (e : Int) (o : WOpts) (b : WBuf) :
-    sciC fmt feats ds e o b ≠ .fault := by
-  unfold sciC
+theorem sciCLayout_nofault (fmt : Format) (feats : Features) (ds : List Nat) (e : Int) (o : WOpts) (b : WBuf) :
+    sciCLayout fmt feats ds e o b ≠ .fault := by
+  unfold sciCLayout
   exact bind_nofault _ _ (set_nofault _ _ _) fun _ => bind_nofault _ _ (set_nofault _ _ _) fun _ =>
     bind_nofault _ _ (sciBody_nofault _ _ _ _ _) fun _ => writeExponentB_nofault _ _ _ _ _ _
+
+theorem posC_nofault (ds : List Nat) (e : Int) (o : WOpts) (b : WBuf) : posC ds e o b ≠ .fault :=
+  posCLayout_nofault _ e o b
+theorem sciC_nofault (fmt : Format) (feats : Features) (ds : List Nat) (e : Int) (o : WOpts) (b : WBuf) :
+    sciC fmt feats ds e o b ≠ .fault := sciCLayout_nofault fmt feats _ e o b
 
 theorem negN_nofault (nd : Nat) (ds : List Nat) (e : Int) (o : WOpts) (b : WBuf) : negN nd ds e o b ≠ .fault := by
   unfold negN
@@ -85,20 +90,21 @@ def needDecC (fmt : Format) (feats : Features) (ds : List Nat) (sci : Int) (o : 
   let sci' := sci + (if tr.2 = true then 1 else 0)
   if ¬ fmt.noExponentNotation = true ∧
       (fmt.requiredExponentNotation = true ∨ sci' < o.negBreak.getD (-5) ∨ sci' > o.posBreak.getD 9) then
-    needSciC fmt feats tr.1.length o (expSign fmt feats sci').length (numeral fmt.exponentRadix sci'.natAbs).length
+    needSciC fmt feats (trimSci o tr.1).length o (expSign fmt feats sci').length (numeral fmt.exponentRadix sci'.natAbs).length
   else if sci' < 0 then needNegC sci'.natAbs tr.1.length (minExactDigits tr.1.length o)
-  else needPosC (sci'.toNat + 1) tr.1.length o.trim (minExactDigits (sci'.toNat + 1 + 1) o) (minExactDigits tr.1.length o)
+  else needPosC (sci'.toNat + 1) (trimPos o (sci'.toNat + 1) tr.1).length o.trim (minExactDigits (sci'.toNat + 1 + 1) o)
+    (minExactDigits (trimPos o (sci'.toNat + 1) tr.1).length o)
 
 def needDecN (fmt : Format) (feats : Features) (nd : Nat) (ds : List Nat) (sci : Int) (o : WOpts) : Nat :=
   let tr := truncateAndRound ds o
   let carry : Nat := if tr.2 = true then 1 else 0
   if ¬ fmt.noExponentNotation = true ∧
       (fmt.requiredExponentNotation = true ∨ sci < o.negBreak.getD (-5) ∨ sci > o.posBreak.getD 9) then
-    needSciN fmt feats nd ds.length tr.1.length o (expSign fmt feats (sci + (if tr.2 = true then 1 else 0))).length
+    needSciN fmt feats nd ds.length (roundSci ds o).1.length o (expSign fmt feats (sci + (if tr.2 = true then 1 else 0))).length
       (numeral fmt.exponentRadix (sci + (if tr.2 = true then 1 else 0)).natAbs).length
   else if sci < 0 then needNegN nd ds.length tr.1.length tr.2 o.trim sci.natAbs (minExactDigits tr.1.length o)
-  else needPosN nd ds.length tr.1.length (sci.toNat + 1 + carry) o.trim (minExactDigits (sci.toNat + 1 + carry + 1) o)
-    (minExactDigits tr.1.length o)
+  else needPosN nd ds.length (roundPos ds sci o).1.length (sci.toNat + 1 + carry) o.trim
+    (minExactDigits (sci.toNat + 1 + carry + 1) o) (minExactDigits (roundPos ds sci o).1.length o)
 
 /-- minimal slice length with which the decimal back-end does not panic -/
 def needDec (fmt : Format) (feats : Features) (f : Fmt) (ds : List Nat) (sci : Int) (o : WOpts) : Nat :=
@@ -119,11 +125,11 @@ theorem decimalB_panic_iff (fmt : Format) (feats : Features) (f : Fmt) (ds : Lis
     generalize sci + (if (truncateAndRound ds o).2 = true then 1 else 0) = sci'
     by_cases c2 : ¬ (effFmt feats fmt).noExponentNotation = true ∧ ((effFmt feats fmt).requiredExponentNotation = true ∨
         sci' < o.negBreak.getD (-5) ∨ sci' > o.posBreak.getD 9)
-    · rw [if_pos c2, if_pos c2]; exact sciC_panic_iff _ _ _ _ _ _
+    · rw [if_pos c2, if_pos c2]; exact sciCLayout_panic_iff _ _ _ _ _ _
     · rw [if_neg c2, if_neg c2]
       by_cases c3 : sci' < 0
       · rw [if_pos c3, if_pos c3]; exact negC_panic_iff _ _ _ _ (by omega)
-      · rw [if_neg c3, if_neg c3]; exact posC_panic_iff _ _ _ _
+      · rw [if_neg c3, if_neg c3]; exact posCLayout_panic_iff _ _ _ _
   · rw [if_neg hc, if_neg hc]
     unfold decimalN needDecN
     dsimp only
@@ -155,11 +161,11 @@ theorem decimalB_ok_facts (fmt : Format) (feats : Features) (f : Fmt) (ds : List
       generalize sci + (if (truncateAndRound ds o).2 = true then 1 else 0) = sci' at h ⊢
       by_cases c2 : ¬ (effFmt feats fmt).noExponentNotation = true ∧ ((effFmt feats fmt).requiredExponentNotation = true ∨
           sci' < o.negBreak.getD (-5) ∨ sci' > o.posBreak.getD 9)
-      · rw [if_pos c2] at h; rw [if_pos c2]; exact sciC_ok_facts _ _ _ _ _ _ _ h
+      · rw [if_pos c2] at h; rw [if_pos c2]; exact sciCLayout_ok_facts _ _ _ _ _ _ _ h
       · rw [if_neg c2] at h; rw [if_neg c2]
         by_cases c3 : sci' < 0
         · rw [if_pos c3] at h; rw [if_pos c3]; exact negC_ok_facts _ _ _ _ _ h
-        · rw [if_neg c3] at h; rw [if_neg c3]; exact posC_ok_facts _ _ _ _ _ h
+        · rw [if_neg c3] at h; rw [if_neg c3]; exact posCLayout_ok_facts _ _ _ _ _ h
   · rw [if_neg hc] at h; rw [if_neg hc]
     unfold decimalN at h
     unfold needDecN
